@@ -40,6 +40,9 @@ C['C18']=("Static analysis: the decision table of ChooseDialTarget over 192 abst
 C['C19']=("Static analysis with two front ends: clang 14's record layouts, enum/macro values and map declarations of tproxy.c (through a header shim) are compared exactly with go/types + types.Sizes of every Go mirror (stub build and real-build variant; other GOARCH sizes and the MAX_MATCH_SET_LEN knob in the thorough tier): every member's offset and width, every shared constant, map capacities, and the shape (32-bit arithmetic, member coverage) of the key constructors.",
  "Trusted: clang 14 front end and the shim under /verif/cshim (UAPI headers only), go/types Sizes for gc. Not decided: BTF-generated bpf2go types (absent here), big-endian hosts (the Makefile also builds bpfeb; explicit little-endian encoders are only decided for little-endian targets).",
  "static analysis: cross-language layout and constant agreement (clang -fdump-record-layouts / JSON AST vs go/types Sizes), both build variants")
+C['C10']=("Static analysis: reviewed set of functions that reference the kernel map, clear=>tracker-reset pairing on every path, apply-after-emit and no-apply-on-error in syncOwner under the tracker mutex, union construction of the affected set and the three-way diff, recomputation of an address's merged bitmap after every owner-set change (loop back-edge must-pass-through), and the callback wiring (unconditional owner delete on eviction, empty snapshot on removal, bitmap length check, mapped 16-byte keys).",
+ "Trusted: go/types, go/cfg. Some DIFF/WIRING obligations compare rendered sub-expressions of the anchored functions. Not decided: the union-of-owners algebra over histories.",
+ "static analysis: who-may-reference + pairing (must-pass-through) + error-edge effect rules + loop back-edge invariant rule over go/cfg")
 def chk(pid):
     text,note,tech=C[pid]
     return {"property_id":pid,"quick_cmd":f"bin/daecheck -p {pid} -tier quick","thorough_cmd":f"bin/daecheck -p {pid} -tier thorough","evidence_file":f"/verif/evidence/{pid}.json",
